@@ -1,10 +1,12 @@
 (* C13 - the whole statement as one machine: databases -> retention policies -> measurements (incarnations) -> series index
    with the deleted-id set -> points in memtable / files. Two machines over the same operations:
-   * the SYSTEM model [tstate]: per (database, policy) a [policy] record = the catalogue's live measurements with the physical
-     identity of their current incarnation (name_version in the code: a re-created measurement gets a physical name that was
-     never used before), the series index of C13.Model (entries, deleted ids, id generator), the durable copy of the deleted-id
-     table, memtable rows and immutable files (rows are stored under physical measurement + series id; a read merges
-     files and memtable, newest wins). Flush, compaction, restart and the persistence of the deleted-id table are real steps.
+   * the SYSTEM model [tstate]: per (database, policy) a [policy] record = the catalogue's live measurements with, per index
+     group (one series index per week of data), the physical identity of their current incarnation in that index (name_version
+     inside that index: a re-created measurement gets identities that were never used before), the series indexes of
+     C13.Model (entries, the policy's deleted ids, id generator), which indexes exist and whether each is wired to the policy's
+     deleted-series table (an index that is not wired consults an empty set), the durable copy of that table, memtable rows and
+     immutable files (rows are stored under physical identity + series id; a read merges files and memtable, newest wins).
+     Flush, compaction, restart (wiring, WAL replay) and the persistence of the deleted-series table are real steps.
    * the REFERENCE machine [sstate]: per (database, policy) the list of visible rows (measurement name, tags, time, value) -
      exactly the reference map of the black-box harness. Drops filter it, flush / compaction / restart do not touch it.
    TreeProofs.v proves that every read of the system model equals the read of the reference for every operation sequence.
@@ -36,72 +38,97 @@ Fixpoint lww (l : list prow) : list prow :=
   | x :: r => if existsb (same_pt x) r then lww r else x :: lww r
   end.
 
+(* one series index per index time range ("index group": a week of data by default); the harness shifts its times so that the
+   model's ranges are the server's *)
+Definition index_span : N := 604800.
+Definition grp (t : N) : N := t / index_span.
+
+Definition ckey := (N * N)%type.                       (* measurement name, index group *)
+Definition ckey_eqb (a b : ckey) : bool := (fst a =? fst b) && (snd a =? snd b).
+
 Record policy := mkP {
-  p_cur : list (N * N);          (* live measurements: logical name -> physical identity of the current incarnation *)
-  p_nextm : N;                   (* generator of physical identities (name + version counter, never reused) *)
-  p_ix : dstate;                 (* series index: key -> id entries, deleted ids (in memory), id generator *)
-  p_deld : list N;               (* deleted ids that have reached a part of the deleted-id table on disk *)
+  p_cur : list (ckey * N);       (* live measurements, per index group: (name, group) -> physical identity of the incarnation's
+                                    items in that group's index (name_version inside that index; never reused) *)
+  p_nextm : N;                   (* generator of physical identities *)
+  p_ix : dstate;                 (* the series indexes of the policy (all groups; a physical identity belongs to one group):
+                                    key -> id entries, the policy's deleted ids (in memory), id generator *)
+  p_table : bool;                (* the policy's deleted-series table exists (created by the first DROP SERIES that finds
+                                    something, or opened at a restart with data) *)
+  p_idx : list (N * bool);       (* the index groups that exist: group, wired to the deleted-series table? An index that is not
+                                    wired consults an empty deleted set *)
+  p_deld : list N;               (* deleted ids that have reached a part of the deleted-series table on disk *)
   p_mem : list prow;             (* memtable (covered by the WAL: acknowledged rows survive a crash) *)
   p_files : list (list prow)     (* immutable files, oldest first *)
 }.
-Definition empty_policy : policy := mkP [] 0 (mkD [] [] 0 []) [] [] [].
+Definition empty_policy : policy := mkP [] 0 (mkD [] [] 0 []) false [] [] [] [].
 Definition p_all (p : policy) : list prow := concat (p_files p) ++ p_mem p.
-Definition cur (p : policy) (n : N) : option N :=
-  match find (fun x => fst x =? n) (p_cur p) with Some x => Some (snd x) | None => None end.
+Definition cur (p : policy) (k : ckey) : option N :=
+  match find (fun x => ckey_eqb (fst x) k) (p_cur p) with Some x => Some (snd x) | None => None end.
+(* the incarnation's (group, physical identity) pairs *)
+Definition pms (p : policy) (n : N) : list (N * N) :=
+  map (fun x => (snd (fst x), snd x)) (filter (fun x => fst (fst x) =? n) (p_cur p)).
+Definition wiredb (p : policy) (g : N) : bool := existsb (fun x => (fst x =? g) && snd x) (p_idx p).
+(* the deleted set the searches of group g's index consult *)
+Definition eff (p : policy) (g : N) : list N := if wiredb p g then d_del (p_ix p) else [].
+Definition wire_all (l : list (N * bool)) : list (N * bool) := map (fun x => (fst x, true)) l.
 
-(* a write creates the measurement if it does not exist (new incarnation), looks the series key up (a dropped id does not
-   count: C13.Model.write) and appends the row to the memtable *)
-Definition ensure_mst (p : policy) (n : N) : policy * N :=
-  match cur p n with
+(* a write goes to the index of its time's group: the index is created if it does not exist ([wirenew] = wired to the policy's
+   deleted-series table at creation when that table exists: _repaired; never: _current), the measurement gets an identity in that
+   index if it has none, the series key is looked up (a dropped id does not count: C13.Model.write), the row goes to the memtable *)
+Definition ensure_idx (wirenew : bool) (p : policy) (g : N) : policy :=
+  if existsb (fun x => fst x =? g) (p_idx p) then p
+  else mkP (p_cur p) (p_nextm p) (p_ix p) (p_table p) (p_idx p ++ [(g, wirenew && p_table p)]) (p_deld p) (p_mem p) (p_files p).
+Definition ensure_mst (p : policy) (k : ckey) : policy * N :=
+  match cur p k with
   | Some pm => (p, pm)
   | None => let pm := p_nextm p + 1 in
-            (mkP (p_cur p ++ [(n, pm)]) pm (p_ix p) (p_deld p) (p_mem p) (p_files p), pm)
+            (mkP (p_cur p ++ [(k, pm)]) pm (p_ix p) (p_table p) (p_idx p) (p_deld p) (p_mem p) (p_files p), pm)
   end.
-Definition p_write (p : policy) (n : N) (tags : tagset) (t v w : N) : policy :=
-  let p1 := fst (ensure_mst p n) in
-  let pm := snd (ensure_mst p n) in
+Definition p_write (wirenew : bool) (p : policy) (n : N) (tags : tagset) (t v w : N) : policy :=
+  let p0 := ensure_idx wirenew p (grp t) in
+  let p1 := fst (ensure_mst p0 (n, grp t)) in
+  let pm := snd (ensure_mst p0 (n, grp t)) in
   let r := write (p_ix p1) (mkS pm tags) in
-  mkP (p_cur p1) (p_nextm p1) (fst r) (p_deld p1) (p_mem p1 ++ [mkR pm (snd r) t v w]) (p_files p1).
-
+  mkP (p_cur p1) (p_nextm p1) (fst r) (p_table p1) (p_idx p1) (p_deld p1) (p_mem p1 ++ [mkR pm (snd r) t v w]) (p_files p1).
 
 Definition p_flush (p : policy) : policy :=
-  mkP (p_cur p) (p_nextm p) (p_ix p) (p_deld p) [] (p_files p ++ [p_mem p]).
+  mkP (p_cur p) (p_nextm p) (p_ix p) (p_table p) (p_idx p) (p_deld p) [] (p_files p ++ [p_mem p]).
 
-(* DROP SERIES: the ids the listing path finds are recorded in the in-memory set; [durable] = they are in a part on disk
-   before the statement is acknowledged (_repaired) or only after the next flush of the table, [p_sync] (_current);
-   [flushfirst] = the memtable is flushed before the ids are searched and recorded (_repaired: no row written before the drop is
-   left in the WAL) or not (_current) *)
+(* DROP SERIES: every index of the policy is searched (the listing path, with the deleted set that index consults) and the ids
+   found are recorded in the policy's deleted-series table - which is created, and wired to the indexes that exist, when there is
+   none yet and something was found. [durable] = the ids are in a part on disk before the statement is acknowledged (_repaired)
+   or only after the next flush of the table, [p_sync] (_current); [flushfirst] = the memtable is flushed before the ids are
+   searched and recorded (_repaired: no row written before the drop is left in the WAL) or not (_current) *)
 Definition p_drop_series (durable flushfirst : bool) (am : N -> N -> bool) (p0 : policy) (n : N) (q : option expr) : policy :=
   let p := if flushfirst then p_flush p0 else p0 in
-  match cur p n with
-  | None => p
-  | Some pm =>
-      let ids := list_ids am (d_T (p_ix p)) (d_del (p_ix p)) pm q in
-      mkP (p_cur p) (p_nextm p) (drop_series am (p_ix p) pm q) (if durable then p_deld p ++ ids else p_deld p)
-          (p_mem p) (p_files p)
+  let ids := flat_map (fun gm : N * N => list_ids am (d_T (p_ix p)) (eff p (fst gm)) (snd gm) q) (pms p n) in
+  match ids with
+  | [] => p
+  | _ => mkP (p_cur p) (p_nextm p)
+             (mkD (d_L (p_ix p)) (d_del (p_ix p) ++ ids) (d_next (p_ix p)) (d_dead (p_ix p)))
+             true (if p_table p then p_idx p else wire_all (p_idx p))
+             (if durable then p_deld p ++ ids else p_deld p) (p_mem p) (p_files p)
   end.
 Definition p_sync (p : policy) : policy :=
-  mkP (p_cur p) (p_nextm p) (p_ix p) (d_del (p_ix p)) (p_mem p) (p_files p).
+  mkP (p_cur p) (p_nextm p) (p_ix p) (p_table p) (p_idx p) (d_del (p_ix p)) (p_mem p) (p_files p).
 
 (* DROP MEASUREMENT: the catalogue forgets the incarnation, the store deletes its memtable rows and files; its index items
-   stay (they are purged lazily) - they are unreachable because no later incarnation has the same physical identity *)
+   stay (they are purged lazily) - they are unreachable because no later incarnation has the same physical identities *)
 Definition p_drop_mst (p : policy) (n : N) : policy :=
-  match cur p n with
-  | None => p
-  | Some pm =>
-      let keep := fun r : prow => negb (r_m r =? pm) in
-      mkP (filter (fun x => negb (fst x =? n)) (p_cur p)) (p_nextm p) (p_ix p) (p_deld p)
-          (filter keep (p_mem p)) (map (filter keep) (p_files p))
-  end.
+  let dead := map snd (pms p n) in
+  let keep := fun r : prow => negb (mem (r_m r) dead) in
+  mkP (filter (fun x => negb (fst (fst x) =? n)) (p_cur p)) (p_nextm p) (p_ix p) (p_table p) (p_idx p) (p_deld p)
+      (filter keep (p_mem p)) (map (filter keep) (p_files p)).
 
 (* compaction / merge of k adjacent files starting at file i into one file holding the newest row of every point *)
 Definition p_compact (p : policy) (i k : nat) : policy :=
   let fs := p_files p in
-  mkP (p_cur p) (p_nextm p) (p_ix p) (p_deld p) (p_mem p)
+  mkP (p_cur p) (p_nextm p) (p_ix p) (p_table p) (p_idx p) (p_deld p) (p_mem p)
       (firstn i fs ++ [lww (concat (firstn k (skipn i fs)))] ++ skipn k (skipn i fs)).
-(* restart (clean or kill -9): the in-memory deleted set is reloaded from the table on disk; the memtable is rebuilt by
-   replaying the WAL: a WAL row carries its series KEY, and the replay looks the key up like any write - a row whose id is
-   recorded as deleted gets a fresh id. (Index entries and files are on disk.) *)
+(* restart (clean or kill -9): the deleted-series table is opened when the policy has an index, every index is wired to it, the
+   in-memory deleted set is reloaded from the table on disk; the memtable is rebuilt by replaying the WAL: a WAL row carries its
+   series KEY, and the replay looks the key up like any write - a row whose id is recorded as deleted gets a fresh id. (Index
+   entries and files are on disk.) *)
 Definition replay_row (st : dstate * list prow) (x : prow) : dstate * list prow :=
   match key_of (d_L (fst st)) (r_id x) with
   | k :: _ => let r := write (fst st) k in (fst r, snd st ++ [mkR (r_m x) (snd r) (r_t x) (r_v x) (r_w x)])
@@ -110,25 +137,25 @@ Definition replay_row (st : dstate * list prow) (x : prow) : dstate * list prow 
 Definition p_restart (p : policy) : policy :=
   let ix0 := mkD (d_L (p_ix p)) (p_deld p) (d_next (p_ix p)) (d_dead (p_ix p)) in
   let st := fold_left replay_row (p_mem p) (ix0, []) in
-  mkP (p_cur p) (p_nextm p) (fst st) (p_deld p) (snd st) (p_files p).
+  mkP (p_cur p) (p_nextm p) (fst st)
+      (match p_idx p with [] => p_table p | _ => true end) (match p_idx p with [] => [] | l => wire_all l end)
+      (p_deld p) (snd st) (p_files p).
 
-(* a read of measurement n with tag predicate q (None: plain select / field filter / group by / aggregates): the rows of the
-   merged view that belong to the current incarnation and whose id the read path selects; reported with the tags of the id *)
+(* a read of measurement n with tag predicate q (None: plain select / field filter / group by / aggregates): for every index
+   group in which the measurement has an identity, the rows of the merged view that belong to it and whose id the read path of
+   that index selects; reported with the tags of the id *)
 Definition orow := (tagset * N * N * N)%type.            (* tags, time, value, stamp *)
 Definition p_read (am : N -> N -> bool) (p : policy) (n : N) (q : option expr) : list orow :=
-  match cur p n with
-  | None => []
-  | Some pm =>
-      let ids := read_repaired am (d_T (p_ix p)) (d_del (p_ix p)) pm q in
-      flat_map (fun r => map (fun k => (s_tags k, r_t r, r_v r, r_w r)) (key_of (d_L (p_ix p)) (r_id r)))
-               (filter (fun r => (r_m r =? pm) && mem (r_id r) ids) (lww (p_all p)))
-  end.
-(* the listing path (show series / tag values / tag keys start from it): series keys of the ids it selects *)
+  flat_map (fun gm : N * N =>
+    let ids := read_repaired am (d_T (p_ix p)) (eff p (fst gm)) (snd gm) q in
+    flat_map (fun r => map (fun k => (s_tags k, r_t r, r_v r, r_w r)) (key_of (d_L (p_ix p)) (r_id r)))
+             (filter (fun r => (r_m r =? snd gm) && mem (r_id r) ids) (lww (p_all p))))
+    (pms p n).
+(* the listing path (show series / tag values / tag keys start from it): series keys of the ids it selects, in every index *)
 Definition p_list (am : N -> N -> bool) (p : policy) (n : N) (q : option expr) : list tagset :=
-  match cur p n with
-  | None => []
-  | Some pm => flat_map (fun id => map s_tags (key_of (d_L (p_ix p)) id)) (list_ids am (d_T (p_ix p)) (d_del (p_ix p)) pm q)
-  end.
+  flat_map (fun gm : N * N =>
+    flat_map (fun id => map s_tags (key_of (d_L (p_ix p)) id)) (list_ids am (d_T (p_ix p)) (eff p (fst gm)) (snd gm) q))
+    (pms p n).
 
 (* ---- the system *)
 Record tstate := mkTS { t_dbs : list N; t_pols : list (key * policy) }.
@@ -147,11 +174,11 @@ Inductive top :=
 | TSync (d r : N)                     (* the deleted-id table of the policy flushes its pending items *)
 | TRestart (d r : N).
 
-Definition tstep (durable flushfirst : bool) (am : N -> N -> bool) (s : tstate) (o : top) : tstate :=
+Definition tstep (durable flushfirst wirenew : bool) (am : N -> N -> bool) (s : tstate) (o : top) : tstate :=
   match o with
   | TCreateDB d => if mem d (t_dbs s) then s else mkTS (t_dbs s ++ [d]) (t_pols s)
   | TCreateRP d r => if mem d (t_dbs s) then mkTS (t_dbs s) (kins (d, r) empty_policy (t_pols s)) else s
-  | TWrite d r n tags t v w => mkTS (t_dbs s) (kupd (d, r) (fun p => p_write p n tags t v w) (t_pols s))
+  | TWrite d r n tags t v w => mkTS (t_dbs s) (kupd (d, r) (fun p => p_write wirenew p n tags t v w) (t_pols s))
   | TDropSeries d r n q => mkTS (t_dbs s) (kupd (d, r) (fun p => p_drop_series durable flushfirst am p n q) (t_pols s))
   | TDropMst d r n => mkTS (t_dbs s) (kupd (d, r) (fun p => p_drop_mst p n) (t_pols s))
   | TDropRP d r => mkTS (t_dbs s) (kdel (key_eqb (d, r)) (t_pols s))
@@ -161,8 +188,8 @@ Definition tstep (durable flushfirst : bool) (am : N -> N -> bool) (s : tstate) 
   | TSync d r => mkTS (t_dbs s) (kupd (d, r) p_sync (t_pols s))
   | TRestart d r => mkTS (t_dbs s) (kupd (d, r) p_restart (t_pols s))
   end.
-Definition trun (durable flushfirst : bool) (am : N -> N -> bool) (s : tstate) (os : list top) : tstate :=
-  fold_left (tstep durable flushfirst am) os s.
+Definition trun (durable flushfirst wirenew : bool) (am : N -> N -> bool) (s : tstate) (os : list top) : tstate :=
+  fold_left (tstep durable flushfirst wirenew am) os s.
 
 Definition tread (am : N -> N -> bool) (s : tstate) (d r n : N) (q : option expr) : list orow :=
   match kget (d, r) (t_pols s) with Some p => p_read am p n q | None => [] end.
